@@ -394,7 +394,12 @@ where
 fn make_abbreviated_namespace(namespace: &str, existing_namespaces: &[Rc<Namespace>]) -> String {
     fn take_three_chars_max(namespace: &str) -> String {
         // only characters that can be part of an XML prefix and of a Rust identifier
-        namespace.chars().filter(|c| c.is_alphanumeric()).take(3).collect()
+        // (`²` or `¼` count as alphanumeric but cannot stand in an identifier)
+        namespace
+            .chars()
+            .filter(|c| c.is_alphabetic() || c.is_ascii_digit())
+            .take(3)
+            .collect()
     }
 
     let mut append: Option<u32> = None;
